@@ -28,6 +28,7 @@ Binding
 """
 import concurrent.futures
 import json
+import os
 import re
 import sys
 
@@ -171,21 +172,22 @@ def main(tier, seed):
         "path.Match is modelled for patterns made of literal characters and '*' only",
         "absence of a package's names is tested through its carriers (function, helper, type, field, import path, file name, literal), not through every identifier"]
     rng = chk.rng
+    tlc_workers = int(os.environ.get("VERIF_TLC_WORKERS", "4"))
 
     # ---------------------------------------------------------------- 1. model
     work = mkscratch("c14-tlc")
-    r = tlc_must_pass("Packages", f"Packages-{tier}.cfg", workdir=work, timeout=2400)
+    r = tlc_must_pass("Packages", f"Packages-{tier}.cfg", workdir=work, timeout=2400, workers=tlc_workers)
     chk.add_tlc(r)
     table = json.loads((work / "packages_table.json").read_text())
     rows = table["rows"]
     log(f"TLC Packages-{tier}: {r.distinct} states, {len(rows)} rows, {r.wall:.0f}s")
-    rl = tlc("Packages", "Packages-leads.cfg", workdir=mkscratch("c14-tlc-leads"), timeout=900)
+    rl = tlc("Packages", "Packages-leads.cfg", workdir=mkscratch("c14-tlc-leads"), timeout=900, workers=tlc_workers)
     if rl.error:
         raise Inconclusive(f"TLC failed on Packages-leads.cfg: {rl.error}")
     chk.add_tlc(rl)
     chk.extra["tlc_lead"] = rl.violated  # EmptyMatchRejectedBuild: concretised below
     if tier == "thorough":
-        ru = tlc_must_pass("Packages", "Packages-unfolded.cfg", workdir=mkscratch("c14-tlc-unf"), timeout=900)
+        ru = tlc_must_pass("Packages", "Packages-unfolded.cfg", workdir=mkscratch("c14-tlc-unf"), timeout=900, workers=tlc_workers)
         chk.add_tlc(ru)
     real_rt = real_runtime_and_deps()
     if real_rt is None or not set(table["runtime_and_deps"]) <= real_rt:
@@ -198,7 +200,8 @@ def main(tier, seed):
     # ---------------------------------------------------------------- sandboxes
     garble = build_garble("verif")
     root = mkscratch("c14")
-    nworkers = 4 if tier == "quick" else 6
+    # private sandboxes used in parallel (VERIF_JOBS=1 on a busy machine)
+    nworkers = int(os.environ.get("VERIF_JOBS", "4" if tier == "quick" else "6"))
     graphs = {g: [tuple(e) for e in es] for g, es in table["graphs"].items()}
     srcs = {}
     for g, edges in graphs.items():
@@ -254,7 +257,8 @@ def main(tier, seed):
     reported = set()
 
     def report(witness, files, what):
-        sig = json.dumps(witness, sort_keys=True, default=str)
+        # one report per kind of failure (not one per GOGARBLE value / graph that shows it)
+        sig = json.dumps({k: v for k, v in witness.items() if k not in ("gogarble", "graph")}, sort_keys=True, default=str)
         if sig in reported:
             return
         reported.add(sig)
@@ -437,13 +441,18 @@ def main(tier, seed):
             if exp[p]:
                 continue
             gp, rp = g_pos.get(p, []), r_pos.get(p, [])
-            base = lambda fl: [(f.rsplit("/", 1)[-1], ln) for f, ln in fl]  # noqa
-            if base(gp) != base(rp):
-                report({"kind": "plain-position", "part": "file-or-line", "pkg": p, "gogarble": row["gogarble"]}, {**art, "positions.json": json.dumps({"garble": gp, "go": rp})},
-                       f"GOGARBLE={row['gogarble']!r}: positions of the plain package {paths[p]} differ: {gp} vs {rp}")
-            elif gp != rp:
-                chk.violation({"kind": "plain-position", "part": "directory"}, {**art, "positions.json": json.dumps({"garble": gp, "go": rp})},
-                              f"positions of a package that is not selected keep file name and line but lose their directory: {gp[:1]} vs {rp[:1]}")
+            if len(gp) != len(rp) or [f.rsplit("/", 1)[-1] for f, _ in gp] != [f.rsplit("/", 1)[-1] for f, _ in rp]:
+                report({"kind": "plain-position", "part": "file", "pkg": p, "gogarble": row["gogarble"]}, {**art, "positions.json": json.dumps({"garble": gp, "go": rp})},
+                       f"GOGARBLE={row['gogarble']!r}: file names in positions of the plain package {paths[p]} differ: {gp} vs {rp}")
+                continue
+            deltas = sorted({gl - rl for (_, gl), (_, rl) in zip(gp, rp)})
+            if deltas != [0]:
+                report({"kind": "plain-position", "part": "line", "main": p == "cmd", "delta": deltas[0] if len(deltas) == 1 else "mixed"},
+                       {**art, "positions.json": json.dumps({"garble": gp, "go": rp})},
+                       f"GOGARBLE={row['gogarble']!r}: line numbers of the plain package {paths[p]} differ: {gp} vs {rp}")
+            if [f for f, _ in gp] != [f for f, _ in rp]:
+                report({"kind": "plain-position", "part": "directory"}, {**art, "positions.json": json.dumps({"garble": gp, "go": rp})},
+                       f"positions of a package that is not selected keep their file name but lose their directory: {gp[:1]} vs {rp[:1]}")
         for (a, b) in graphs[g]:
             if exp[a] != exp[b]:
                 cross_seen.add(("op" if exp[a] else "po", a, b))
@@ -499,6 +508,11 @@ def main(tier, seed):
         art = {"src": srcs["diamond"], "gogarble.txt": row["gogarble"], "garble_out.txt": res.stdout[-3000:] + res.stderr[-3000:], "events.json": json.dumps(evs, indent=1)}
         if res.timed_out:
             raise Inconclusive("garble test timed out")
+        if row["rejected"]:
+            if res.returncode == 0 or "does not match any packages" not in res.stderr:
+                report({"kind": "empty-match-accepted", "matched": "nothing-listed", "command": "test", "gogarble": row["gogarble"]}, art,
+                       f"GOGARBLE={row['gogarble']!r} matches nothing that `garble test ./lib` builds, but the command exits {res.returncode}")
+            continue
         if res.returncode != 0 or "ok" not in res.stdout:
             report({"kind": "test-failed", "gogarble": row["gogarble"]}, art, f"GOGARBLE={row['gogarble']!r} garble test ./lib fails: {(res.stdout + res.stderr)[-300:]}")
             continue
@@ -508,9 +522,16 @@ def main(tier, seed):
                 if i != "sub":
                     print(f"MODEL-MISMATCH: property=C14 no compile-start event for test variant {tpaths[i]!r}: {sorted(k for k in evs if k.startswith(MOD))}", flush=True)
                 continue
-            if evs[tpaths[i]] != bool(row["obfuscate"][i]):
+            want = bool(row["obfuscate"][i])
+            if evs[tpaths[i]] == want:
+                continue
+            if i in ("lib[test]", "sub"):
+                # the package under test itself (recompiled with its test files) / a dependency: their code is what GOGARBLE selects
                 report({"kind": "decision", "pkg": i, "gogarble": row["gogarble"], "real": evs[tpaths[i]], "command": "test"}, art,
-                       f"GOGARBLE={row['gogarble']!r} garble test: {tpaths[i]} compiled with obfuscate={evs[tpaths[i]]}, expected {bool(row['obfuscate'][i])}")
+                       f"GOGARBLE={row['gogarble']!r} garble test: {tpaths[i]} compiled with obfuscate={evs[tpaths[i]]}, expected {want}")
+            else:
+                # external test package and generated test main: garble's own special rules, not the property's
+                print(f"MODEL-MISMATCH: property=C14 GOGARBLE={row['gogarble']!r} garble test: {tpaths[i]} compiled with obfuscate={evs[tpaths[i]]}, Packages.tla says {want}", flush=True)
     if tier == "thorough":
         fsrc = root / "src-file"
         write_module(fsrc, {"main.go": FILE_MAIN}, module="example.com/filemod")
